@@ -93,12 +93,15 @@ def stageIds (t : Trace) : List Nat := t.events.filterMap fun | .stage i => some
 def isResultEv : Ev → Bool
   | .stage _ => false
   | .onExc _ _ => false
-  | _ => true
+  | .startTestRun | .stopTestRun | .startTest | .stopTest | .outcome _ _ => true
 
 def resultEvents (t : Trace) : List Ev := t.events.filter isResultEv
 
-def outcomeOf (t : Trace) : Option (Outcome × Details) :=
-  t.events.findSome? fun | .outcome o d => some (o, d) | _ => none
+def evOutcome : Ev → Option (Outcome × Details)
+  | .outcome o d => some (o, d)
+  | .startTestRun | .stopTestRun | .startTest | .stopTest | .stage _ | .onExc _ _ => none
+
+def outcomeOf (t : Trace) : Option (Outcome × Details) := t.events.findSome? evOutcome
 
 def executed (p : Program) (t : Trace) : List Stage := (stageIds t).filterMap (findStage p)
 
